@@ -1,6 +1,7 @@
 package hist
 
 import (
+	"errors"
 	"fmt"
 	"net/http"
 	"slices"
@@ -64,6 +65,13 @@ func (e *Engine) CheckState() error {
 	for i, s := range e.Snaps {
 		if s.txn == nil {
 			continue
+		}
+		// ... and it stays read-only: a write through it is refused without effect
+		if _, err := s.txn.Handle("GET", "/readonly-probe", e.handler(0)); !errors.Is(err, fox.ErrReadOnlyTxn) {
+			return fmt.Errorf("snapshot %s taken at step %d: Handle through it returned %v, want ErrReadOnlyTxn", s.What, s.takenAt, err)
+		}
+		if err := s.txn.Truncate(); !errors.Is(err, fox.ErrReadOnlyTxn) {
+			return fmt.Errorf("snapshot %s taken at step %d: Truncate through it returned %v, want ErrReadOnlyTxn", s.What, s.takenAt, err)
 		}
 		if (e.Steps+i)%2 == 0 {
 			s.txn.Commit()
